@@ -183,8 +183,10 @@ DeadLetter(del, D) ==
 Elig(s) == {d \in DelsOf(S, s) : /\ ~IsDone(S, d) /\ S.del[d].at <= S.now /\ S.del[d].exp > S.now
                                  /\ ~Blocked(S, d, S.now)}
 
-Pull(snm, max) ==
-  LET e == [op |-> "Pull", sub |-> snm, max |-> max] X == SubsNamed(S, snm) IN
+\* x: extra event fields (race |-> r, each |-> k: the pull is issued as r concurrent pulls of k
+\* messages each; together they must behave like ONE pull of r*k - nothing handed out twice)
+PullX(snm, max, x) ==
+  LET e == [op |-> "Pull", sub |-> snm, max |-> max] @@ x X == SubsNamed(S, snm) IN
   IF X = {} THEN Fail(e, "NotFound")
   ELSE
     LET s == Pick(X) E == Elig(s) k == Min2(max, Cardinality(E)) IN
@@ -205,6 +207,7 @@ Pull(snm, max) ==
          /\ OK(e @@ [got |-> got],
                [S EXCEPT !.del = del2, !.nd = @ + Cardinality(D),
                          !.subs = [@ EXCEPT ![s].exp = S.now + S.subs[s].ttl]])
+Pull(snm, max) == PullX(snm, max, NoX)
 
 Delivered == {d \in Dels(S) : S.del[d].att > 0}
 AckPool == IF AckAll \/ Delivered = {} THEN Dels(S) ELSE Delivered
@@ -390,6 +393,12 @@ List(kind, pr, page) ==
                  [] kind = "snap" -> {n \in DOMAIN S.snaps : S.snaps[n].proj = pr}
   IN OK([op |-> "List", kind |-> kind, proj |-> pr, page |-> page, names |-> SeqOfSet(names)], S)
 
+ListTopicSubs(nm, page) ==
+  LET T == TopicsNamed(S, nm)
+      e == [op |-> "List", kind |-> "topicsubs", name |-> nm, proj |-> "p", page |-> page] IN
+  IF T = {} THEN Fail(e @@ [names |-> <<>>], "NotFound")
+  ELSE OK(e @@ [names |-> SeqOfSet({S.subs[s].name : s \in {x \in DOMAIN S.subs : S.subs[x].live /\ S.subs[x].topic \in T}})], S)
+
 ---------------------------------------------------------------------------
 SetupStep ==
   LET r == Setup[S.ph + 1] IN
@@ -430,6 +439,7 @@ OpNext(op) ==
     [] op = "SetDelay" -> \E nm \in SubNames, d \in Delays : SetDelay(nm, d)
     [] op = "Publish" -> \E nm \in TopicNames, b \in Batches : Publish(nm, b)
     [] op = "Pull" -> \E nm \in SubNames, k \in PullMaxes : Pull(nm, k)
+    [] op = "RacePull" -> \E nm \in SubNames, k \in {1, 2}, r \in {2, 3} : PullX(nm, k * r, [race |-> r, each |-> k])
     [] op = "PullWait" -> \E nm \in SubNames : PullWait(nm)
     \* pull on the subscription of the history's latest pull (any, if none yet): lets one delivery
     \* climb its attempt ladder (family "ladder")
@@ -450,7 +460,8 @@ OpNext(op) ==
     [] op = "ExpireSubs" -> \E k \in JobMaxes : ExpireSubs(k)
     [] op \in PruneJobs -> \E a \in JobAges, k \in JobMaxes : Prune(op, a, k)
     [] op = "Get" -> GetAny
-    [] op = "List" -> \E k \in {"topic", "sub", "snap"}, pr \in Projects, pg \in {0, 1, 2, 3, 100} : List(k, pr, pg)
+    [] op = "List" -> \/ \E k \in {"topic", "sub", "snap"}, pr \in Projects, pg \in {0, 1, 2, 3, 100} : List(k, pr, pg)
+                      \/ \E nm \in TopicNames, pg \in {0, 1, 2, 100} : ListTopicSubs(nm, pg)
     [] op = "Tick" -> \E d \in TickDs : Tick(d)
     [] op = "TickNear" -> \E off \in NearOffsets : TickNear(off)
 
